@@ -5,6 +5,7 @@
    constants around every type boundary, in decimal and hexadecimal, with and without u / l
    suffix, plain and escaped character constants.
      Mode "full"  : 78 leaves (MaxDepth 1 gives every operator applied to every pair of leaves)
+     Mode "mid"   : 36 leaves (quick tier)
      Mode "small" : 8 leaves, deeper trees
    Invariant AgreeKnown: wherever C defines the value, cffi's untyped evaluation gives the same
    value OR the first node where the two part belongs to one of the recorded classes
@@ -25,7 +26,14 @@ FullLeaves ==
   \o <<Chr(FALSE, 97), Chr(FALSE, 48), Chr(TRUE, 110), Chr(TRUE, 116), Chr(TRUE, 48), Chr(TRUE, 92)>>
 SmallLeaves == <<Lit("dec", 1, ""), Lit("dec", 2, ""), Lit("hex", 127, ""), Lit("hex", 255, ""),
                  Lit("dec", 3, "u"), Chr(TRUE, 110), Chr(FALSE, 97), Lit("hex", 511, "")>>
-Leaves == IF Mode = "full" THEN FullLeaves ELSE SmallLeaves
+MidVals == <<0, 1, 2, 127, 128, 255, 256, 1023>>
+MidLeaves ==
+  [i \in 1..(Len(MidVals) * 4) |->
+     LET v == MidVals[((i - 1) \div 4) + 1]
+         j == (i - 1) % 4
+     IN Lit(IF j < 2 THEN "dec" ELSE "hex", v, <<"", "u">>[(j % 2) + 1])]
+  \o <<Chr(FALSE, 97), Chr(TRUE, 110), Chr(TRUE, 48), Chr(TRUE, 92)>>
+Leaves == CASE Mode = "full" -> FullLeaves [] Mode = "mid" -> MidLeaves [] OTHER -> SmallLeaves
 BinOps == {"+", "-", "*", "/", "%", "<<", ">>", "&", "|", "^"}
 
 RECURSIVE Dec(_)
